@@ -197,7 +197,24 @@ def check(an: Analysis) -> None:
             return nested_incomplete_value(e)
 
         tests = [n for n in g.nodes if n.kind == "test" and nested_incomplete_value(n.ast) is not NOVALUE]
-        if not tests:
+        # the same guard as a loop: `for nested in self._nested: if not nested.is_completed: return`
+        loops_ = [n for n in g.nodes if n.kind == "for-iter" and isinstance(n.ast, ast.For) and dotted(n.ast.iter) == "self._nested" and isinstance(n.ast.target, ast.Name)]
+        loop_vars = {n.ast.target.id for n in loops_}  # type: ignore[union-attr]
+        loop_tests = [n for n in g.nodes if n.kind == "test" and any(isinstance(x, ast.Attribute) and x.attr in ("is_completed",) and isinstance(x.value, ast.Name) and x.value.id in loop_vars for x in ast.walk(n.ast))]
+        if loop_tests and not tests:
+
+            def env_loop(e: ast.AST):
+                # scenario: there are nested scopes and the one at hand is not completed
+                if isinstance(e, ast.Attribute) and e.attr == "is_completed" and isinstance(e.value, ast.Name) and e.value.id in loop_vars:
+                    return False
+                return NOVALUE
+
+            ob.inst(cia, loop_tests[0].ast, "nested guard (loop form)")
+            sc_loop = scenario(g, env_loop)
+            w = g.search([g.entry], lambda n: n in rnodes, skip_edge=lambda a, b, lab: sc_loop(a, b, lab) or (a in loops_ and lab == "F"))
+            if w is not None:
+                ob.fail(cia, rnodes[0].ast, "the completion future can be resolved while a nested scope is not completed", CFG.show_path(w))
+        elif not tests:
             ob.fail(cia, rnodes[0].ast, "no guard on the completion of nested scopes before resolving")
         else:
             ob.inst(cia, tests[0].ast, "nested guard")
